@@ -162,6 +162,14 @@ def num_range(v):
     return (0, (1 << (8 * sz)) - 1)
 
 
+def same_value(v, a, b):
+    """do two storage images of variable v hold the same value?  A string's value ends at its terminator: what a WRITE leaves
+    in the bytes behind it (still inside data_size) is not fixed by any statement."""
+    if v["type"] == STR:
+        return bytes(a).split(b"\0")[0] == bytes(b).split(b"\0")[0] and (b"\0" in bytes(a)) == (b"\0" in bytes(b))
+    return bytes(a) == bytes(b)
+
+
 # ---------------------------------------------------------------- Formatter
 
 def fmt_var(v, data):
